@@ -11,6 +11,8 @@ download worker, `process_<class>_assets` (networking/assets/mod.rs).
                    and the host relays the message to the other clients;
 * `fetch`        — a download job runs: HTTP GET on the owner's endpoint returns **what the owner's cache
                    holds at that moment** (C14) and the bytes are put into the `*_to_apply` slot of the uuid;
+* `snapshotH i`  — `build_full_sync` for joining client `i` (C03): the host serves what it holds now and announces
+                   its own endpoint to `i`;
 * `process p`    — `process_*_assets`: the slot is drained into `Assets`, one debounce entry is filed
                    (`countTokens = false` is the pre-repair set semantics) and one `AssetEvent` is raised.
 Content is an abstract `Nat` (that the bytes survive the wire is C11 / C13 / C14).  A GET and the store
@@ -44,6 +46,7 @@ deriving Repr, DecidableEq
 inductive Act where
   | publishH (v : Nat) | reactH | pollH (i : Nat) | fetchH | processH
   | publishC (i v : Nat) | reactC (i : Nat) | pollC (i : Nat) | fetchC (i : Nat) | processC (i : Nat)
+  | snapshotH (i : Nat)     -- `build_full_sync` for joining client `i`: serve the host's copy afresh, announce it to `i`
 deriving Repr, DecidableEq
 
 def onClient (i : Nat) (f : Client → Client) (cs : List Client) : List Client :=
@@ -95,6 +98,12 @@ def cPoll (skipServed : Bool) (c : Client) : Client :=
   | [] => c
   | o :: rest => { c with p := request skipServed c.p o, down := rest }
 
+/-- the snapshot's entry for this uuid reaches the joiner's channel -/
+def cSnapshot (c : Client) : Client := { c with down := c.down ++ [0] }
+
+/-- `check_<class>` of the snapshot: the host serves what it holds **now** -/
+def snapServe (p : Peer) : Peer := if p.content.isSome then { p with served := p.content } else p
+
 def cPublish (v : Nat) (c : Client) : Client := { c with p := publish c.p v }
 def cFetch (s : State) (c : Client) : Client := { c with p := fetch s c.p }
 def cProcess (countTokens : Bool) (c : Client) : Client := { c with p := process countTokens c.p }
@@ -125,6 +134,9 @@ def step (countTokens skipServed : Bool) (s : State) : Act → State
     { s with clients := onClient i (cPoll skipServed) s.clients }
   | .fetchC i => { s with clients := onClient i (cFetch s) s.clients }
   | .processC i => { s with clients := onClient i (cProcess countTokens) s.clients }
+  | .snapshotH i =>
+    if s.host.content.isSome then { s with host := snapServe s.host, clients := onClient i cSnapshot s.clients }
+    else s
 
 def run (ct sk : Bool) (s : State) (as : List Act) : State := as.foldl (step ct sk) s
 
